@@ -553,3 +553,175 @@ async fn standin_tcp_hanging_candidate() {
     // attempt's time-out by a whole attempt)
     tokio::join!(scenario(1), scenario(2));
 }
+
+// =====================================================================================================================
+// Replay templates of unit `tcpconnect` (TcpConnecting::connect / TcpConnectionAttempt, src/client/conn/transport/tcp.rs;
+// obligations tc.*, index.tcpconnect.json).  They drive the real code through the public
+// `TcpTransport::connect_to_addrs` (= `TcpConnecting::new(addrs, &config).connect()`) against loopback sockets.
+// =====================================================================================================================
+mod tc {
+    use super::hanging_listener;
+    use crate::client::conn::transport::tcp::{TcpConnectionError, TcpTransport, TcpTransportConfig};
+    use std::net::SocketAddr;
+    use std::time::{Duration, Instant};
+
+    fn transport(config: TcpTransportConfig) -> TcpTransport {
+        TcpTransport::builder().with_config(config).with_gai_resolver().build()
+    }
+    /// a loopback address nobody listens on: connecting is refused at once
+    fn refused_addr() -> SocketAddr {
+        let l = std::net::TcpListener::bind("127.0.0.1:0").unwrap();
+        let a = l.local_addr().unwrap();
+        drop(l);
+        a
+    }
+    async fn go(config: TcpTransportConfig, candidates: Vec<SocketAddr>) -> Result<crate::stream::tcp::TcpStream, TcpConnectionError> {
+        tokio::time::timeout(Duration::from_secs(20), transport(config).connect_to_addrs(candidates))
+            .await
+            .expect("connect_to_addrs did not finish within 20 s")
+    }
+
+    /// tc.connect.one_per_address / tc.connect.all_addresses / tc.connect.order / tc.set.push.back / tc.addrs.front [C11]:
+    /// every address of the list gets its attempt (a refused candidate in front of an accepting one is not the end), and the
+    /// attempts are made in list order (strictly sequential configuration: the FIRST accepting candidate of the list wins).
+    #[tokio::test]
+    async fn tc_one_attempt_per_address_in_order() {
+        // (a) all addresses are attempted: two refused candidates, then one that accepts
+        let listener = tokio::net::TcpListener::bind("127.0.0.1:0").await.unwrap();
+        let good = listener.local_addr().unwrap();
+        for config in [TcpTransportConfig::default(), {
+            let mut c = TcpTransportConfig::default();
+            c.happy_eyeballs_timeout = None;
+            c.happy_eyeballs_concurrency = Some(1);
+            c
+        }] {
+            let stream = go(config, vec![refused_addr(), refused_addr(), good])
+                .await
+                .expect("the third candidate accepts: every address of the list must be attempted");
+            assert_eq!(stream.peer_addr().unwrap(), good);
+        }
+        // (a') whatever its family: an IPv6 candidate behind a refused IPv4 one (skipped when the host has no IPv6 loopback)
+        if let Ok(l6) = tokio::net::TcpListener::bind("[::1]:0").await {
+            let good6 = l6.local_addr().unwrap();
+            let mut config = TcpTransportConfig::default();
+            config.happy_eyeballs_timeout = None;
+            config.happy_eyeballs_concurrency = Some(1);
+            let stream = go(config, vec![refused_addr(), good6]).await.expect("the IPv6 candidate accepts: it must be attempted");
+            assert_eq!(stream.peer_addr().unwrap(), good6);
+        }
+        // (b) list order: two accepting candidates, one attempt at a time, no stagger: the first of the list is connected
+        let l1 = tokio::net::TcpListener::bind("127.0.0.1:0").await.unwrap();
+        let l2 = tokio::net::TcpListener::bind("127.0.0.1:0").await.unwrap();
+        let (a1, a2) = (l1.local_addr().unwrap(), l2.local_addr().unwrap());
+        for order in [vec![a1, a2], vec![a2, a1], vec![refused_addr(), a2, a1]] {
+            let mut config = TcpTransportConfig::default();
+            config.happy_eyeballs_timeout = None;
+            config.happy_eyeballs_concurrency = Some(1);
+            let first_live = *order.iter().find(|a| **a == a1 || **a == a2).unwrap();
+            let stream = go(config, order.clone()).await.expect("both candidates accept");
+            assert_eq!(stream.peer_addr().unwrap(), first_live, "attempts are not made in list order: {order:?}");
+        }
+    }
+
+    /// tc.connect.delay / tc.connect.deadline / tc.connect.concurrency / tc.set.new.config [C11]: three candidates that hang
+    /// and a fourth that accepts, happy-eyeballs time-out T = 2400 ms, one attempt at a time: the stagger delay is T / 4 = 600 ms,
+    /// so the accepting candidate is reached at 1800 ms - not earlier (timers never fire early: all four at once, or a smaller
+    /// delay, would connect sooner) and before the overall deadline T (an undivided delay T, or delay and deadline swapped,
+    /// ends in the time-out error).
+    #[tokio::test(flavor = "multi_thread", worker_threads = 2)]
+    async fn tc_pacing_from_config() {
+        let (_hole, _fillers, hole) = tokio::task::spawn_blocking(hanging_listener).await.unwrap();
+        let listener = tokio::net::TcpListener::bind("127.0.0.1:0").await.unwrap();
+        let good = listener.local_addr().unwrap();
+        let total = Duration::from_millis(2400);
+        let mut config = TcpTransportConfig::default();
+        config.happy_eyeballs_timeout = Some(total);
+        config.happy_eyeballs_concurrency = Some(1);
+        config.connect_timeout = None;
+        let t0 = Instant::now();
+        let result = go(config, vec![hole, hole, hole, good]).await;
+        let took = t0.elapsed();
+        let stream = result.unwrap_or_else(|e| {
+            panic!("4 candidates, time-out {total:?}: the 4th is started at 3/4 of it and accepts at once, but connecting failed after {took:?} with: {e}")
+        });
+        assert_eq!(stream.peer_addr().unwrap(), good);
+        assert!(took >= total / 4 * 3, "connected after {took:?}: the 4th candidate was started before 3 stagger delays of {:?} had passed", total / 4);
+        assert!(took < total, "connected after {took:?}, the overall deadline is {total:?}");
+    }
+
+    /// tc.connect.result / tc.connect.err_unchanged / tc.connect.err_timeout / tc.connect.err_exhausted / tc.err.new [C10]:
+    /// what the caller sees for each outcome of the happy-eyeballs run.
+    #[tokio::test(flavor = "multi_thread", worker_threads = 2)]
+    async fn tc_error_mapping() {
+        use std::error::Error as _;
+        // every attempt failed: the attempt's OWN error, unchanged (message of the socket layer + the io::Error as source)
+        for n in [1usize, 3] {
+            let e = go(TcpTransportConfig::default(), (0..n).map(|_| refused_addr()).collect()).await.expect_err("nobody listens");
+            let text = e.to_string();
+            assert!(text.starts_with("tcp connect error"), "{n} refused candidate(s): the caller must see the attempt's error, got: {text}");
+            let io = e.source().and_then(|s| s.downcast_ref::<std::io::Error>()).expect("the attempt's io::Error is the source");
+            assert_eq!(io.kind(), std::io::ErrorKind::ConnectionRefused, "{text}");
+        }
+        // no candidate at all: no progress
+        for timeout in [Some(Duration::from_secs(30)), None] {
+            let mut config = TcpTransportConfig::default();
+            config.happy_eyeballs_timeout = timeout;
+            let e = go(config, vec![]).await.expect_err("no candidates");
+            assert_eq!(e.to_string(), "Exhausted connection candidates");
+            assert!(e.source().is_none());
+        }
+        // the overall deadline passes while the only attempt hangs: the time-out error
+        let (_hole, _fillers, hole) = tokio::task::spawn_blocking(hanging_listener).await.unwrap();
+        let mut config = TcpTransportConfig::default();
+        config.happy_eyeballs_timeout = Some(Duration::from_millis(300));
+        config.connect_timeout = None;
+        let t0 = Instant::now();
+        let e = go(config, vec![hole]).await.expect_err("the only candidate hangs");
+        assert!(t0.elapsed() >= Duration::from_millis(300));
+        let text = e.to_string();
+        let ms = text.strip_prefix("Connection attempts timed out after ").and_then(|t| t.strip_suffix("ms"));
+        assert!(ms.is_some_and(|m| m.parse::<u128>().is_ok_and(|m| m >= 300)), "expected the time-out error with the elapsed milliseconds, got: {text}");
+        assert!(e.source().is_none());
+    }
+
+    /// tc.connect.result (Ok half) / tc.attempt.dials_own_address / tc.attempt.new / tc.connecting.new [C10,C11]: the stream
+    /// handed to the caller IS the connection of the attempt for that address (the listener sees its local address as peer),
+    /// and an attempt runs under the configured per-attempt `connect_timeout` (not under one of the other durations).
+    #[tokio::test(flavor = "multi_thread", worker_threads = 2)]
+    async fn tc_result_is_the_attempts_stream() {
+        let listener = tokio::net::TcpListener::bind("127.0.0.1:0").await.unwrap();
+        let good = listener.local_addr().unwrap();
+        let (stream, accepted) = tokio::join!(go(TcpTransportConfig::default(), vec![good]), async {
+            tokio::time::timeout(Duration::from_secs(5), listener.accept()).await.expect("nobody connected").unwrap()
+        });
+        let stream = stream.expect("the candidate accepts");
+        assert_eq!(stream.peer_addr().unwrap(), good);
+        assert_eq!(accepted.1, stream.local_addr().unwrap(), "the returned stream is not the connection the listener accepted");
+
+        let (_hole, _fillers, hole) = tokio::task::spawn_blocking(hanging_listener).await.unwrap();
+        let mut config = TcpTransportConfig::default();
+        config.happy_eyeballs_timeout = None;
+        config.keep_alive_timeout = Some(Duration::from_secs(7));
+        config.connect_timeout = Some(Duration::from_millis(300));
+        let t0 = Instant::now();
+        let e = go(config, vec![hole]).await.expect_err("the only candidate hangs until its connect time-out");
+        let took = t0.elapsed();
+        assert!(took >= Duration::from_millis(300) && took < Duration::from_secs(5), "per-attempt time-out is 300 ms, the attempt ended after {took:?}");
+        let text = e.to_string();
+        assert!(text.starts_with("tcp connect error"), "the attempt's own time-out error is what the caller sees, got: {text}");
+    }
+
+    /// tc.connect.no_panic [C17]: the division `timeout / #addresses` is only reached with at least one address.
+    #[tokio::test]
+    async fn tc_no_panic_for_any_list_length() {
+        for n in 0..4usize {
+            for timeout in [Some(Duration::from_millis(40)), Some(Duration::ZERO), None] {
+                let mut config = TcpTransportConfig::default();
+                config.happy_eyeballs_timeout = timeout;
+                let candidates: Vec<SocketAddr> = (0..n).map(|_| refused_addr()).collect();
+                let r = tokio::spawn(async move { go(config, candidates).await.is_err() }).await;
+                assert!(r.is_ok(), "connecting to {n} addresses with happy_eyeballs_timeout {timeout:?} panicked");
+            }
+        }
+    }
+}
